@@ -12,6 +12,7 @@ import ast
 from .. import vcrun, extract
 from ..common import native, SEED
 from . import _b1, _groups as GR
+from . import _f7
 
 LEVEL = "proof"
 
@@ -90,5 +91,6 @@ def run(rep, tier):
             rep.violation(f"{q}: accepts a str but has no contract", {"function": q, "parameter": a}, None, no_input=True)
     funcs = sorted({q for q, _ in pos if q in contracts.ALL and "params" in contracts.ALL[q]} | set(GR.HELPERS) | {GR.P + "__init__", GR.P + "_to_pregex"})
     vcrun.run_functions(rep, funcs, tier)
+    _f7.decide(rep)      # F7: type and repeatable flag of EVERY literal string (regular-language facts about the real regexes)
     _b1.run(rep, tier, ["category", "flag", "total", "empty"], "literal leaves and one/two steps on them")
     rep.trusted += GR.TRUST + ["E5: str.replace(c, w) with len(c) == 1 is the character-wise map c -> w"]
